@@ -236,8 +236,10 @@ replace %s => %s
 	bgomod := strings.Replace(gomod, "go 1.22.0", "go 1.25.0", 1) + fmt.Sprintf("\nreplace %s => %s\n", zkmod, filepath.Join(scratch, "zk"))
 	must(os.WriteFile(filepath.Join(bdir, "go.mod"), []byte(bgomod), 0644))
 	must(os.WriteFile(filepath.Join(bdir, "go.sum"), sum, 0644))
-	if out, err := run(verifDir, goEnv, "cp", "-r", filepath.Join(verifDir, "scen", "s3"), filepath.Join(bdir, "scen", "s3")); err != nil {
-		die(2, "copy scen/s3: %v %s", err, out)
+	for _, sc := range []string{"s3", "s1"} {
+		if out, err := run(verifDir, goEnv, "cp", "-r", filepath.Join(verifDir, "scen", sc), filepath.Join(bdir, "scen", sc)); err != nil {
+			die(2, "copy scen/%s: %v %s", sc, err, out)
+		}
 	}
 }
 
@@ -255,7 +257,12 @@ func addRuntimeSeam(overlay, ovDir string) {
 	must(err)
 	must(json.Unmarshal(data, &ov))
 	patchN := func(file string, olds, news []string) {
-		src, err := os.ReadFile(filepath.Join(rt, file))
+		file = strings.TrimSuffix(file, ".2") // a second round of patches on a file already rewritten
+		srcPath := filepath.Join(rt, file)
+		if prev, ok := ov.Replace[srcPath]; ok {
+			srcPath = prev
+		}
+		src, err := os.ReadFile(srcPath)
 		must(err)
 		for i, old := range olds {
 			if bytes.Count(src, []byte(old)) != 1 {
@@ -275,6 +282,9 @@ func addRuntimeSeam(overlay, ovDir string) {
 		[]string{"\trunqput(mp.p.ptr(), gp, next)\n\tverifMaybePreempt(mp)\n\twakep()\n\treleasem(mp)\n", "\t\trunqput(pp, newg, true)\n\t\tverifMaybePreempt(getg().m)\n\n\t\tif mainStarted {", "next && verifRandn(2) == 0", "\t\t\tj := verifRandn(i + 1)\n\t\t\tbatch[i], batch[j]", "\t\t\tj := verifRandn(i + 1)\n\t\t\tpp.runq[off(i)], pp.runq[off(j)]"})
 	// a goroutine preempted by the seam goes to the tail of the local run queue (as runtime.goyield does), not to the
 	// global one: when the global queue is polled depends on schedtick, which background goroutines advance in real time
+	// likewise runtime.Gosched from a bubbled goroutine (the bubble kernel's yield): tail of the local run queue
+	patch("proc.go.2", "\t} else {\n\t\tlock(&sched.lock)\n\t\tglobrunqput(gp)\n\t\tunlock(&sched.lock)\n\t}\n\n\tif mainStarted {\n\t\twakep()\n\t}\n\n\tschedule()\n}",
+		"\t} else if gp.bubble != nil && verifLocalYield {\n\t\trunqput(pp, gp, false)\n\t} else {\n\t\tlock(&sched.lock)\n\t\tglobrunqput(gp)\n\t\tunlock(&sched.lock)\n\t}\n\n\tif mainStarted {\n\t\twakep()\n\t}\n\n\tschedule()\n}")
 	patch("stack.go", "\t\tgopreempt_m(gp) // never return\n", "\t\tif gp.bubble != nil && verifPreemptOneIn != 0 {\n\t\t\tgoyield_m(gp) // never return\n\t\t}\n\t\tgopreempt_m(gp) // never return\n")
 	add, err := os.ReadFile(filepath.Join(verifDir, "overlayfiles", "runtime", "zz_verif_rand.go.txt"))
 	must(err)
@@ -378,7 +388,7 @@ func ensureTools() {
 // buildScenario instruments the current tree for the given seam set and compiles the
 // scenario's test binary with the race detector.
 func buildScenario(b *Batch) *builtBin {
-	key := b.Pkg + "|" + b.Seams.key() + "|" + b.Module
+	key := b.Pkg + "|" + b.Seams.key() + "|" + b.Module + "|" + b.Tags + fmt.Sprint(b.Bubble)
 	buildMu.Lock()
 	defer buildMu.Unlock()
 	if bb, ok := built[key]; ok {
@@ -460,7 +470,11 @@ func buildScenario(b *Batch) *builtBin {
 	if !b.NoRace {
 		targs = append(targs, "-race")
 	}
-	targs = append(targs, "-tags", "vscratch", "./"+b.Pkg)
+	tags := "vscratch"
+	if b.Tags != "" {
+		tags += "," + b.Tags
+	}
+	targs = append(targs, "-tags", tags, "./"+b.Pkg)
 	gobin, gdir := "go", scratch
 	if b.Bubble {
 		gobin, gdir = "go1.26.8", filepath.Join(scratch, "b")
@@ -486,7 +500,7 @@ func buildScenario(b *Batch) *builtBin {
 func workerEnv(b *Batch, prop string, extra ...string) []string {
 	env := append([]string{}, goEnv...)
 	if b.GenSim {
-		if bb := built[b.Pkg+"|"+b.Seams.key()+"|"+b.Module]; bb != nil {
+		if bb := built[b.Pkg+"|"+b.Seams.key()+"|"+b.Module+"|"+b.Tags+fmt.Sprint(b.Bubble)]; bb != nil {
 			env = append(env, "VW_GENSIM="+bb.gensim)
 		}
 		tmp := filepath.Join(scratch, "tmp")
@@ -1026,7 +1040,7 @@ func main() {
 		if os.Getenv("VCHECK_FORCE_ROOT") != "" && b.Pkg == "scen/s4" && b.Module == "" {
 			b.Module = "root" // exploration aid: run a property's S4 batches against the root module
 		}
-		if only := os.Getenv("VCHECK_ONLY"); only != "" && !strings.Contains(b.Module+":"+b.Scen+":"+b.Cfg, only) {
+		if only := os.Getenv("VCHECK_ONLY"); only != "" && !strings.Contains(b.Module+":"+b.Scen+":"+b.Cfg+":"+b.Tags, only) {
 			continue // debugging aid: run only the batches whose "module:scenario:cfg" contains the given text
 		}
 		bb := buildScenario(b)
@@ -1102,12 +1116,38 @@ func main() {
 		bestRun := -1
 		bestFrom := 0
 		var bestWo *workerOut
+		skipBatch, skipNoted := false, false
 		for wi, wo := range outs {
 			if wo.res != nil {
 				ev.merge(b, wo.res, bb)
 			}
 			v, ch, vr := classify(wo, prop, b.HangIsViolation, b)
 			if v == nil {
+				continue
+			}
+			if v.Property == "HARNESS" && v.Oracle == "hang" && !b.Bubble && hasBubbleKernelBatch(spec) {
+				// Back end A could not follow this code: a task waited for another one on something the sync shim
+				// does not cover (a channel, say) while it held the token. The property also has a batch on back
+				// end B's bubble kernel, where every primitive blocks natively: that one gives the verdict.
+				if !skipNoted {
+					logf("note: the token kernel cannot follow this code in %s cfg=%q (a task blocked outside the sync shim while holding the token); this batch is skipped, the bubble-kernel batch decides", b.Scen, b.Cfg)
+					ev.foreign = append(ev.foreign, "skipped-by-token-kernel:"+b.Scen+":"+b.Cfg)
+					skipNoted = true
+				}
+				skipBatch = true
+				continue
+			}
+			if v.Property == "HARNESS" && v.Oracle == "worker-crash" && strings.Contains(b.Tags, "bkern") &&
+				(strings.Contains(v.Message, "multiple synctest bubbles") || strings.Contains(v.Message, "from outside bubble")) {
+				// The mirror case: every run of back end B is a bubble of its own, and the runtime refuses
+				// synchronisation objects that travel from one bubble to the next (a package-level pool of
+				// WaitGroups, a channel kept in a global). The token-kernel batches of the property decide.
+				if !skipNoted {
+					logf("note: the bubble kernel cannot follow this code in %s cfg=%q (synchronisation objects outlive a run); this batch is skipped, the token-kernel batches decide", b.Scen, b.Cfg)
+					ev.foreign = append(ev.foreign, "skipped-by-bubble-kernel:"+b.Scen+":"+b.Cfg)
+					skipNoted = true
+				}
+				skipBatch = true
 				continue
 			}
 			if v.Property == "HARNESS" {
@@ -1127,6 +1167,9 @@ func main() {
 					}
 				}
 			}
+		}
+		if skipBatch {
+			continue
 		}
 		if best == nil {
 			continue
@@ -1241,6 +1284,15 @@ func main() {
 	}
 	cleanup()
 	os.Exit(exit)
+}
+
+func hasBubbleKernelBatch(spec *PropSpec) bool {
+	for i := range spec.Batches {
+		if strings.Contains(spec.Batches[i].Tags, "bkern") {
+			return true
+		}
+	}
+	return false
 }
 
 func moduleName(b *Batch) string {
